@@ -3,6 +3,7 @@ add_node_to_edge keep the id counter above every integer edge id)."""
 import z3
 
 from pyvc.spec import *
+from pyvc.values import VDict
 from contracts.derived import rsnap
 from contracts.common import G
 
@@ -57,3 +58,17 @@ s.exc("TypeError")
 s.exc("XGIError")
 s.exc("IndexError")
 s.exc("ValueError")
+
+
+# ------------------------------------------------------------------ to_hyperedge_dict (C10): labelled copy of the edge table
+HE = "xgi/convert/hyperedges.py::"
+s = contract(HE + "to_hyperedge_dict", [("H", "net:H")])
+s.variants = [{"H": "net:H"}, {"H": "net:SC"}]
+s.modifies = []
+s.result = "auto"
+s.ens("edge-ids-with-copies-of-their-members", ("C10",), lambda c, A, R: z3.And(
+    z3.BoolVal(isinstance(R.result, VDict) and R.result.valkind == "set" and bool(getattr(R.result, "fresh_values", False))),
+    R.result.keys == A.snap0["H"].ek,
+    c.forall(["id"], lambda e: z3.Implies(sel(A.snap0["H"].ek, e), sel(R.result.fields["v"], e) == sel(A.snap0["H"].E, e)))))
+s.ens_all("argument-unchanged", ("C10", "C08"), lambda c, A, R: same_state(c, A.snap0["H"], R.snap["H"]))
+s.notes = "through the contract of EdgeView.members(dtype=dict), itself discharged in contracts/views.py"
